@@ -719,6 +719,23 @@ func ruleJSONProtocol(c *Ctx) {
 		m := analyseJOut(p, fn)
 		calls := strings.Join(m.calls, ",")
 		ok := calls == "prefix,punctuate" || calls == "prefix,appendString,punctuate"
+		// a scalar whose whole body hands the value to another scalar of the same
+		// outputter (Float32 -> Float64) follows that one's protocol
+		if calls == "" && len(fn.Decl.Body.List) == 1 {
+			if es, isExpr := fn.Decl.Body.List[0].(*ast.ExprStmt); isExpr {
+				if call, isCall := es.X.(*ast.CallExpr); isCall {
+					if sel, isSel := call.Fun.(*ast.SelectorExpr); isSel {
+						if id, isID := sel.X.(*ast.Ident); isID && fn.Pkg.TypesInfo.Uses[id] == recvObj(fn.Pkg.TypesInfo, fn.Decl) && sel.Sel.Name != name {
+							for _, other := range scalars {
+								if other == sel.Sel.Name {
+									ok, calls = true, "delegates to "+other
+								}
+							}
+						}
+					}
+				}
+			}
+		}
 		// straight-line: no branching in scalar methods
 		branch := false
 		ast.Inspect(fn.Decl.Body, func(n ast.Node) bool {
